@@ -143,6 +143,37 @@ def _(xp, a, b):
     return dict(L=xp.sum(c * w) + xp.sum(s * np.arange(1.0, 19.0).reshape(3, 2, 3)), c=c)
 
 
+# a structural op that COPIES in the forward pass feeding a consumer whose backward hands back a view of a scratch buffer
+# (roll over the flattened array, repeat with per-element counts, matmul with a vector): the intermediate is exposed so that the
+# ownership / aliasing contracts look at its gradient next to the leaves'
+@prog("stack-into-flat-roll", "pure", (2, 2), (2, 2))
+def _(xp, a, b):
+    y = xp.stack((a, b), axis=0)
+    w = np.arange(1.0, 9.0).reshape(2, 2, 2)
+    return dict(L=xp.sum(xp.roll(y, 3) * w) + xp.sum(a * a), y=y)
+
+
+@prog("concatenate-into-flat-roll", "pure", (2, 2), (1, 2))
+def _(xp, a, b):
+    y = xp.concatenate((a, b), axis=0)
+    w = np.arange(1.0, 7.0).reshape(3, 2)
+    return dict(L=xp.sum(xp.roll(y, 1) * w), y=y)
+
+
+@prog("flatten-into-repeat-counts", "pure", (2, 2))
+def _(xp, a):
+    y = a.flatten()
+    r = xp.repeat(y, [1, 2, 0, 3])
+    return dict(L=xp.sum(r * np.arange(1.0, 7.0)), y=y)
+
+
+@prog("flatten-into-matvec", "pure", (2, 2))
+def _(xp, a):
+    y = a.flatten()
+    W = np.arange(1.0, 13.0).reshape(3, 4)
+    return dict(L=xp.sum(xp.matmul(W, y) * np.array([1.0, -2.0, 3.0])), y=y)
+
+
 @prog("join", "pure", (2, 3), (1, 3))
 def _(xp, a, b):
     c = xp.concatenate((a, b, a), axis=0)
